@@ -12,6 +12,8 @@ package core
 //@   flags trusted
 //@   modifies nothing
 //@   ensures n <= 0 ==> err == nil
+//@   ensures forall g *Frag :: g.RspBody.base != buf.base && g.Req.base != buf.base
+//@   ensures forall m *Msg :: m.RspBody.base != buf.base
 
 //@ func conn.Discard
 //@   flags trusted
@@ -33,4 +35,14 @@ package core
 //@   modifies msg.Timeout
 
 //@ func Frag.slowLogCheck
+//@   flags trusted pure
+
+// formatting helpers used only for log lines
+//@ func Frag.ReqString
+//@   flags trusted pure
+//@ func Frag.RspBodyString
+//@   flags trusted pure
+//@ func Msg.BodyString
+//@   flags trusted pure
+//@ func Msg.RspBodyString
 //@   flags trusted pure
